@@ -446,6 +446,20 @@ long long c_delineate_river(long long nrows, long long ncols,
     return 0;
 }
 
+/* Squared distance (in cells) between two neighbouring cells: 1 for a step
+ * along a row or a column, 2 for a diagonal step. Decided on rows and columns
+ * (on a grid with 2 columns a diagonal step also changes the cell number
+ * by 1) */
+static double stepsquaredist(long long ncols, long long n1, long long n2)
+{
+    long long nxy1[2], nxy2[2];
+
+    getnxy(ncols, n1, nxy1);
+    getnxy(ncols, n2, nxy2);
+
+    return nxy1[0] != nxy2[0] && nxy1[1] != nxy2[1] ? 2 : 1;
+}
+
 long long c_delineate_flowpathlengths_in_catchment(long long nrows,
     long long ncols,
     long long * flowdircode,
@@ -456,7 +470,6 @@ long long c_delineate_flowpathlengths_in_catchment(long long nrows,
     double * flowpathlengths)
 {
     long long ierr=0, ierr_down=0, i, ipath, idxcell_up[1], idxcell_down[1];
-    long long diff;
     double squaredist, length;
 
     /* Loop through all cells in catchment area */
@@ -484,8 +497,7 @@ long long c_delineate_flowpathlengths_in_catchment(long long nrows,
                 break;
 
             /* Compute distance between up and down cell */
-            diff = abs(*idxcell_down - *idxcell_up);
-            squaredist = diff == 1 || diff == ncols ? 1 : 2;
+            squaredist = stepsquaredist(ncols, *idxcell_up, *idxcell_down);
 
             /* Iterate */
             *idxcell_up = *idxcell_down;
@@ -498,8 +510,7 @@ long long c_delineate_flowpathlengths_in_catchment(long long nrows,
         if(ipath < nval && *idxcell_down >= 0)
         {
             /* Compute distance between up and down cell */
-            diff = abs(*idxcell_down - *idxcell_up);
-            squaredist = diff == 1 || diff == ncols ? 1 : 2;
+            squaredist = stepsquaredist(ncols, *idxcell_up, *idxcell_down);
             length += sqrt(squaredist);
         }
 
